@@ -196,9 +196,6 @@ func (run *c19OvRun) batch(calls []*c19OvCall, perm func(n int) []int) []*c19OvC
 		}
 		if !c19OvWait(func() bool { return c19OvParked(false) == k+1 }) {
 			run.stuck = true
-			buf := make([]byte, 1<<20)
-			buf = buf[:runtime.Stack(buf, true)]
-			fmt.Println("STUCK-LOCK", k, string(buf))
 		}
 	}
 	srv.mtx.RUnlock()
@@ -270,6 +267,7 @@ func c19OvCase(t *testing.T, cs *vg.Cases, kind string, nclients int, steps []c1
 		t.Fatal(err)
 	}
 	run := &c19OvRun{srv: srv, orig: srv.cmds, queries: queries}
+	run.barrier() // the loop goroutine has evaluated s.cmds (it ranges over the original channel)
 	var ops, descr []string
 	observe := func() {
 		if run.stuck {
